@@ -15,6 +15,10 @@ pub struct VerifAudit {
     pub dangling: Vec<String>,
     /// Violations of the list/index well-formedness invariant.
     pub structural: Vec<String>,
+    /// Addresses of the nodes registered in the index (read without dereferencing them).
+    pub index_nodes: Vec<usize>,
+    /// Addresses of the live nodes met by the forward walk, in order.
+    pub linked_nodes: Vec<usize>,
 }
 
 impl VerifAudit {
@@ -46,6 +50,7 @@ impl<K: Hash + Eq, V, E, S: BuildHasher> RawLRU<K, V, E, S> {
         lookup: bool,
     ) -> VerifAudit {
         let mut out = VerifAudit::default();
+        out.index_nodes = self.map.values().map(|n| n.as_ptr() as usize).collect();
         let sz = Self::verif_node_size();
         let n = self.map.len();
         let live = |p: *const EntryNode<K, V>| !p.is_null() && is_live(p as *const u8, sz);
@@ -93,6 +98,7 @@ impl<K: Hash + Eq, V, E, S: BuildHasher> RawLRU<K, V, E, S> {
                     out.structural.push(format!("node {} of forward walk: prev does not point at its predecessor", fwd.len()));
                 }
                 fwd.push(cur);
+                out.linked_nodes.push(cur as usize);
                 prev = cur;
                 cur = (*cur).next;
             }
